@@ -410,6 +410,15 @@ class Engine:
             f = self.facts.fns.get(d)
             if f is not None:
                 return self.eval_const_body(f)
+            # `<T as Trait>::NAME` without a default body: the constant of T's impl of the trait (T through the frame's
+            # generic substitution)
+            m = re.match(r"^<(.+) as (.+)>::(\w+)$", k.get("other") or "")
+            if m and frame is not None and d.split("::")[0] in self.facts.crates:
+                # (constants of third-party traits - ff::Field::ZERO / ONE - stay symbolic: the rules name them)
+                ty, crate = self.subst_ty(frame, m.group(1))
+                g = self.find_impl_fn(m.group(3), ty, crate, trait_contains=m.group(2).split("<")[0].split("::")[-1])
+                if g is not None:
+                    return self.eval_const_body(g)
             return mk("constdef", d, k["ty"])
         return mk("const", k.get("other"), k.get("ty"))
 
